@@ -30,6 +30,10 @@ pub fn dispatch(prop: &str, cfg: &RunCfg, out: &Out) {
         "C06" => c06::run(cfg, out),
         "C07" => c07::run(cfg, out),
         "C08" => c08::run(cfg, out),
+        "C08CHILD" => {
+            c08::run_child();
+            return; // (only reached when the write was not reached) the parent owns the scratch directories
+        }
         "C09" => idx::run(idx::Kind::C09, cfg, out),
         "C10" => c10::run(cfg, out),
         "C11" => c11::run(cfg, out),
